@@ -163,8 +163,17 @@ def check_search(case, spec=None):
         if is_timeout(row) or is_timeout(a):
             res.inconclusive = "timeout text"
         elif summary(row) != summary(a):
-            res.fail("differs-from-alone", "never mixed up", index=i, reaction=rxn, in_batch=summary(row), alone=summary(a),
-                     reactions=rxs, solved=flags)
+            # wall clock is never an oracle: RDKit's 1 s search limit can cut a search short under machine load without
+            # leaving any text behind. Run both sides once more; only a difference that persists counts.
+            _ALONE.pop(rxn, None)
+            a2 = alone(rxn)
+            rows2 = make_rows(rxs, flags)
+            search().find(rows2)
+            if summary(rows2[i]) != summary(a2) and summary(rows2[i]) == summary(row) and summary(a2) == summary(a):
+                res.fail("differs-from-alone", "never mixed up", index=i, reaction=rxn, in_batch=summary(row), alone=summary(a),
+                         reactions=rxs, solved=flags)
+            else:
+                res.inconclusive = "transient difference (not repeated on immediate re-run)"
     return res
 
 
